@@ -102,6 +102,12 @@ def make_signature(rng, present, max_per_kind, force_counts=None, composite=Fals
         params.append((f"k{i}", "ko", a_, dflt(a_, "'7'") if rng.random() < 0.3 else None))
     if vk:
         params.append(("extra", "vk", ann(), None))
+    if rng.random() < 0.3:
+        # a parameter called like a name the binder uses itself (its own `self`, its argument names): still only a parameter
+        cands = [j for j, p_ in enumerate(params) if p_[1] in ("pk", "ko")]
+        if cands:
+            j = rng.choice(cands)
+            params[j] = (rng.choice(["self", "cls", "obj", "args", "kwargs", "binding", "signature", "call", "val", "t"]),) + params[j][1:]
     return params
 
 
@@ -261,14 +267,16 @@ def build_variants(src, params, variants, modname, future=False):
     code += ("import functools\ndef _deco(fn):\n    @functools.wraps(fn)\n    def inner(*a, **k):\n        r = fn(*a, **k)\n"
              "        return {**r, '_decorated': True}\n    return inner\ndecorated = _deco(f)\n")
     code += "async " + render(params, "coro") + "\n"
+    pnames = {p_[0] for p_ in params}
+    me, kls = ("me" if "self" in pnames else "self"), ("kls" if "cls" in pnames else "cls")
     code += "class Holder:\n"
-    code += "\n".join("    " + l for l in render(params, "meth", first="self").splitlines()) + "\n"
+    code += "\n".join("    " + l for l in render(params, "meth", first=me).splitlines()) + "\n"
     code += "    @staticmethod\n" + "\n".join("    " + l for l in render(params, "smeth").splitlines()) + "\n"
-    code += "    @classmethod\n" + "\n".join("    " + l for l in render(params, "cmeth", first="cls").splitlines()) + "\n"
-    code += "\n".join("    " + l for l in render(params, "__call__", first="self").splitlines()) + "\n"
+    code += "    @classmethod\n" + "\n".join("    " + l for l in render(params, "cmeth", first=kls).splitlines()) + "\n"
+    code += "\n".join("    " + l for l in render(params, "__call__", first=me).splitlines()) + "\n"
     names = [p[0] for p in params]
-    init = render(params, "__init__", first="self").replace("return {" + ", ".join(f"{n!r}: {n}" for n in names) + "}",
-                                                              "self.received = {" + ", ".join(f"{n!r}: {n}" for n in names) + "}")
+    init = render(params, "__init__", first=me).replace("return {" + ", ".join(f"{n!r}: {n}" for n in names) + "}",
+                                                              me + ".received = {" + ", ".join(f"{n!r}: {n}" for n in names) + "}")
     code += "class Klass:\n" + "\n".join("    " + l for l in init.splitlines()) + "\n"
     exec(compile(code, f"/verif/out/generated/{modname}.py", "exec", dont_inherit=True), mod.__dict__)
     h = mod.Holder()
